@@ -26,6 +26,9 @@ def check(chk):
     _dom5(chk)
     _pair2(chk)
     _keyed_waits(chk)
+    # relay: what earlier handlers relayed reaches later handlers only through the per-handler merge of the *current* kwargs
+    from sa.rules.c01 import _merge_and_condition
+    _merge_and_condition(chk, chk.repo.func(EV, EM + "._run_handlers"))
     _table0(chk)
     _type1(chk)
 
@@ -183,6 +186,12 @@ def _dom4(chk):
     loops = [h for h in cfg.nodes if h.kind == "loop"]
     chk.require(loops, "C02: handler loop vanished from _run_handlers_sequential")
     head = loops[0]
+    # a queue event is never aborted: every registered handler whose condition holds runs -- no `break` / `return` inside the handler
+    # loop (a handler's return value means nothing for queue events; `False` aborts only boolean events)
+    early = [y for y in ast.walk(head.ast) if isinstance(y, (ast.Break, ast.Return))]
+    chk.ob("DOM-4", "a queue event runs every handler: the handler loop is never left early", not early, f.where(early[0]) if early else f.where(head.ast),
+           detail="lower-priority handlers are skipped and the completion callback fires without them" if early else "", construct=f.ident,
+           text="queue event handler loop left early")
     awaits = [n for n in cfg.nodes_where(lambda n: n.kind in ("stmt", "test") and n.has_await())]
     qa = [n for n in awaits if ".event.wait()" in n.text(200) or ".wait()" in n.text(200)]
     chk.ob("DOM-4", "sequential dispatcher awaits the queue's release", bool(qa), f.where(), construct=f.ident,
@@ -742,6 +751,8 @@ def battery():
         M("ball end does not wait for a mode that is already stopping", MC, "            if mode.auto_stop_on_ball_end:\n", "            if mode.auto_stop_on_ball_end and not mode.stopping:\n", "PAIR-2"),
         M("twin: game stop loop with an early continue", G, "            if mode.is_game_mode and mode.active:\n                self._stopping_modes.append(mode)\n                mode.stop(callback=partial(self._game_mode_stopped, mode=mode))", "            if not mode.is_game_mode or not mode.active:\n                continue\n            self._stopping_modes.append(mode)\n            mode.stop(callback=partial(self._game_mode_stopped, mode=mode))", None),
         M("game mode asked to stop before it is noted as awaited", G, "                self._stopping_modes.append(mode)\n                mode.stop(callback=partial(self._game_mode_stopped, mode=mode))", "                mode.stop(callback=partial(self._game_mode_stopped, mode=mode))\n                self._stopping_modes.append(mode)", "PAIR-2"),
+        M("queue event aborted by a handler returning False", E, "            handler.callback(queue=queue, **merged_kwargs)\n", "            result = handler.callback(queue=queue, **merged_kwargs)\n            if result is False:\n                break\n", "DOM-4"),
+        M("merge fast path decided by a stale flag", E, "        result = None\n        for handler in self.registered_handlers[event][:]:", "        result = None\n        has_kwargs = bool(kwargs)\n        for handler in self.registered_handlers[event][:]:", "FLOW-1", also=[(E, "            if handler.kwargs and kwargs:", "            if handler.kwargs and has_kwargs:")]),
     ]
 
 
